@@ -81,7 +81,11 @@ class Project:
         """Loop statements of the function in source order (the sidecar loop specifications are keyed by this ordinal)."""
         loops = [n for n in ast.walk(self.function_ast(key)) if isinstance(n, (ast.For, ast.AsyncFor, ast.While))]
         loops.sort(key=lambda n: (n.lineno, n.col_offset))
-        return [type(n).__name__ for n in loops]
+        out = []
+        for n in loops:
+            head = ast.unparse(n.test) if isinstance(n, ast.While) else f"{ast.unparse(n.target)} in {ast.unparse(n.iter)}"
+            out.append(f"{type(n).__name__} {head}")
+        return out
 
     def spec_ast(self, name: str):
         for n in self._spec_ast.body:
